@@ -56,6 +56,7 @@ var propConfigs = map[string]*propConfig{
 	"C15": {pkgs: []string{"./pkg/simbox", "./pkg/bondmachine", "./pkg/procbuilder"}, notes: []string{
 		"decided: Simbox.Add appends exactly one, not suspended, rule or leaves the list untouched; Del/Suspend/Reactivate have exactly their stated effect and change nothing else; bondmachine.SimConfig.Init and procbuilder.SimConfig.Init set an option iff it was already set or some not-suspended configuration rule names it (a suspended rule has no effect on the configuration)",
 		"decided: Rule.String prints exactly the documented text of each rule form; every rule Add creates is of a printable form (image), and for every such rule x, Add(text(x)) succeeds and appends exactly x (inverse) - proved on every path of Add, including the final rejection; strings.Split is modelled by the field laws of one-character separators (nfields/field homomorphism over concatenation, part of the string model T2)",
+		"decided for event rules: EventListShow shows a position only if some rule justifies it - an on-exit show rule at shutdown, an on-valid show rule on the rising edge of the watched valid line (new value up, old value down); the converse (every justified position is shown) is not decided because map iteration is over-approximated",
 		"not decided: rule files on disk (encoding/json), SimDrive.Init/SimReport.Init (store and compare *interface{} pointers; outside the subset) and the per-tick injection/report semantics",
 	}},
 	"C16": {pkgs: []string{"./pkg/procbuilder", "./pkg/bondmachine", "./pkg/basm", "./pkg/bondgo", "./pkg/bmstack", "./pkg/bmserialize", "./pkg/bondirect"}, notes: []string{
@@ -71,7 +72,8 @@ var propConfigs = map[string]*propConfig{
 		"float16/float32, fixed point, FloPoCo and linear-quantiser import/export go through strconv.ParseFloat and float scaling: floating point is outside this family; only the integer notations (unsigned, signed, bin, hex) are under functional contract",
 		"the regular languages are those of Go's regexp/syntax parse of the pattern strings found in the importMatchers methods; runes above U+2FFFF are clipped (SMT-LIB string alphabet)",
 	}},
-	"C09": {pkgs: []string{"./pkg/procbuilder", "./pkg/simbox"}, notes: []string{
+	"C09": {pkgs: []string{"./pkg/procbuilder", "./pkg/simbox", "./pkg/bmnumbers"}, notes: []string{
+		"decided for the run-time type registry: bmnumbers.EventuallyCreateType, which the simulator calls for every shown value on every tick, writes nothing (type list and matcher table unchanged) when the type is already registered; the type creators themselves are trusted",
 		"decided: every Opcode.Simulate (all opcode types except the nine emulator opcodes, which send on the VM's command channel) writes only cells of the VM it is given and reads only that VM and its machine description; run-time panics and callee preconditions are assumed not to occur (frameonly contracts)",
 		"not decided: the goroutine scheduler, the per-tick channel barrier of bondmachine.VM.Step, GOMAXPROCS, the race detector, and simbox.DelayDistribution (draws from the process-wide math/rand source by design)",
 		"DelayDistribution.GetValue is verified to write nothing (the delay model is shared by every processor and simulation); only the process-wide random source it draws from is outside the model",
